@@ -113,6 +113,8 @@ package kgo
 //@   pure
 //@   ensures n == 30 + int32(len(r.Key)) + int32(len(r.Value)) + 8
 
+// (Flexible versions end every partition element and every topic element with a tagged-field count byte, which
+// produceRequest.AppendTo writes: the trailing + 1 terms below. Their absence was the fixed defect of C18.)
 // tryAddBatch: a batch joins a produce request only if the request's running wire length plus the batch's length
 // for the produce version (with the partition prefix, the topic overhead when the topic is new, and the growth of
 // the compact partition-array prefix) stays within the request's limit; the running length then grows by exactly
@@ -124,7 +126,9 @@ package kgo
 //@   site store wireLength#0 assert [request-stays-within-the-limit] val <= p.wireLengthLimit && val == prev + batchWireLength
 //@   site store wireLength#0 assert [known-topic-non-flexible] (exists && !flexible) ==> batchWireLength == $wireLengthForProduceVersion0_0 + 4
 //@   site store wireLength#0 assert [new-topic-non-flexible] (!exists && !flexible && !topicIDs) ==> batchWireLength == $wireLengthForProduceVersion0_0 + 4 + 2 + int32(len(recBuf.topic)) + 4
-//@   site store wireLength#0 assert [new-topic-with-topic-id] (!exists && topicIDs) ==> batchWireLength == $wireLengthForProduceVersion0_0 + 4 + 16 + 1
+//@   site store wireLength#0 assert [new-topic-with-topic-id] (!exists && topicIDs) ==> batchWireLength == $wireLengthForProduceVersion0_0 + 4 + 16 + 1 + 1 + 1
+//@   site store wireLength#0 assert [new-topic-flexible] (!exists && flexible && !topicIDs) ==> batchWireLength == $wireLengthForProduceVersion0_0 + 4 + $uvarlen0 + int32(len(recBuf.topic)) + 1 + 1 + 1
+//@   site store wireLength#0 assert [known-topic-flexible] (exists && flexible) ==> batchWireLength == $wireLengthForProduceVersion0_0 + 4 + ($uvarlen2 - $uvarlen1) + 1
 //@   site call addBatch#0 assert [frozen-before-it-is-added] batch.frozen && arg5 == batch
 //@   ensures [added-means-accounted] ok ==> reached($wireLengthForProduceVersion0_0) && p.wireLength <= p.wireLengthLimit
 
@@ -179,3 +183,11 @@ package kgo
 //@   site call AppendCompactArrayLen#1 assert [topic-ids-from-v13] p.version >= 13 && arg1 == len(partitions)
 //@   site call AppendCompactArrayLen#2 assert [partition-count-compact-v9-to-v12] p.version >= 9 && p.version < 13 && arg1 == len(partitions)
 //@   site call AppendArrayLen#1 assert [partition-count-below-v9] p.version < 9 && arg1 == len(partitions)
+
+// wireLengthForProduceVersion: which layout the length is for - compact (flexible) encodings from v9, topic ids
+// from v13, the pessimistic non-flexible layout while the version is unknown.
+//@ func (b *recBatch) wireLengthForProduceVersion(v int32) (batchWireLength int32, flexible bool, topicIDs bool)
+//@   prop C18
+//@   ensures [flexible-from-v9] flexible == (v >= 9)
+//@   ensures [topic-ids-from-v13] topicIDs == (v >= 13)
+//@   ensures [record-batches-v3-to-v8] (v >= 3 && v <= 8) ==> batchWireLength == old(b.wireLength)
